@@ -237,14 +237,16 @@ def impl_tuned(c):
             det.fit(X)
             scores = np.asarray(det.transform_scores(X)).reshape(-1)
         elif c["det"] == "sbs":
-            det = SBS(threshold_scale=None, level=c["level"], min_segment_length=2)
+            gf, mx = [1.5, 1.2, 2.0][core._bits(c, 4, 3)], [200, 12, 30][core._bits(c, 8, 3)]  # tuning must use the configured grid
+            det = SBS(threshold_scale=None, level=c["level"], min_segment_length=2, growth_factor=gf, max_interval_length=mx)
             if prev is not None:
                 det.fit(prev)
             det.fit(X)
             det.predict(X)
             scores = det.scores["score"].to_numpy()
         else:
-            det = CBS(threshold_scale=None, level=c["level"], min_segment_length=2, max_interval_length=20)
+            det = CBS(threshold_scale=None, level=c["level"], min_segment_length=2, max_interval_length=[20, 12, 30][core._bits(c, 8, 3)],
+                      growth_factor=[1.5, 1.2, 2.0][core._bits(c, 4, 3)])
             if prev is not None:
                 det.fit(prev)
             det.fit(X)
